@@ -12,6 +12,8 @@ import re
 import time
 
 VERIF = os.path.dirname(os.path.dirname(os.path.abspath(__file__)))
+# the evaluation tools (seeded / benign patches applied to /repo) send their throw-away evidence elsewhere
+EVDIR = os.environ.get('VERIF_EVIDENCE_DIR') or os.path.join(VERIF, 'evidence')
 KNOWN = os.path.join(VERIF, 'known_findings.txt')
 
 
@@ -121,10 +123,10 @@ class Report:
         for r, inst, k in known_hits:
             lines.append('KNOWN-FINDING: property=%s rule=%s site=%s %s' % (self.pid, r.id, inst['site'], k[4]))
         rc = 0
-        os.makedirs(os.path.join(VERIF, 'evidence', 'replays'), exist_ok=True)
+        os.makedirs(os.path.join(EVDIR, 'replays'), exist_ok=True)
         for r, inst in viol:
             safe = re.sub(r'[^A-Za-z0-9_.-]', '_', '%s-%s-%s' % (self.pid, r.id, inst['site']))[:120]
-            path = os.path.join(VERIF, 'evidence', 'replays', safe + '.json')
+            path = os.path.join(EVDIR, 'replays', safe + '.json')
             with open(path, 'w') as fh:
                 json.dump({'property': self.pid, 'rule': r.id, 'rule_text': r.desc, 'site': inst['site'], 'loc': inst['loc'],
                            'detail': inst['detail'], 'witness': inst['witness'], 'tier': self.tier,
@@ -188,6 +190,6 @@ class Report:
             'wall_s': round(time.time() - self.t0, 3),
             'violations': len(viol),
         }
-        os.makedirs(os.path.join(VERIF, 'evidence'), exist_ok=True)
-        with open(os.path.join(VERIF, 'evidence', self.pid + '.json'), 'w') as fh:
+        os.makedirs(EVDIR, exist_ok=True)
+        with open(os.path.join(EVDIR, self.pid + '.json'), 'w') as fh:
             json.dump(ev, fh, indent=1)
